@@ -126,6 +126,10 @@ func main() {
 			if len(ws) == 0 {
 				continue
 			}
+			if suite == "wire" {
+				replayWire(out, ws, line)
+				continue
+			}
 			if ws[0] != suite && !(ws[0] == "q" && suite == "rt") {
 				continue // a corpus file may be shared; each suite replays its own kind
 			}
@@ -177,6 +181,8 @@ func main() {
 			genStr(out, r, k)
 		case "fuzz":
 			genFuzz(out, r, k)
+		case "wire":
+			genWire(out, r, k)
 		default:
 			fmt.Fprintln(os.Stderr, "unknown suite", suite)
 			os.Exit(2)
